@@ -348,7 +348,7 @@ OPS = ["open", "close", "sense-a", "sense-af", "sense-f", "sense-b",
        "sense-dep", "listen-tta", "listen-ttb", "listen-dep",
        "listen-ttf", "exchange", "max-send", "max-recv", "connect-rdwr",
        "connect-rdwr-stay", "connect-rdwr-beep", "connect-llcp",
-       "connect-card", "exit"]
+       "connect-card", "exit", "exit-exc"]
 
 
 def do_op(w, op):
@@ -367,6 +367,12 @@ def do_op(w, op):
         clf.close()
     elif op == "exit":
         clf.__exit__(None, None, None)
+    elif op == "exit-exc":
+        # the with-block is left by an exception of the application
+        try:
+            raise RuntimeError("application error inside the with-block")
+        except RuntimeError as e:
+            clf.__exit__(type(e), e, e.__traceback__)
     elif op == "sense-a":
         clf.sense(nfc.clf.RemoteTarget("106A"))
     elif op == "sense-af":
@@ -545,7 +551,7 @@ def programs():
         "seed": st.integers(0, 255)})
 
 
-FAIL_OPS = OPS + ["close", "close", "exit", "exit", "open", "sense-a",
+FAIL_OPS = OPS + ["close", "close", "exit", "exit", "exit-exc", "open", "sense-a",
                   "exchange", "max-send", "max-recv"]
 
 
@@ -628,6 +634,8 @@ FIXED = [
     [["connect-rdwr-stay"], ["close"]],
     [["sense-af", "exchange"], ["close", "open", "max-recv"]],
     [["connect-llcp"], ["listen-ttf", "exit"]],
+    [["sense-a", "exchange", "exchange"], ["max-send", "exit-exc", "open"]],
+    [["connect-rdwr-stay"], ["exit-exc"]],
     [["connect-card", "sense-f"], ["exchange"], ["max-send", "max-recv"]],
     [["open", "sense-a", "exchange"], ["open", "listen-dep"]],
 ]
